@@ -69,7 +69,7 @@ pub fn differs(base: &Outcome, ctx: &'static str, got: &Outcome) -> Option<Strin
       if ctx == CONTEXTS[3] {
         // a set comprehension keeps the value of its body as one element
         let want = b.short();
-        if let Canon::Set(_, e, _) = g { if e.len() == 1 && e[0].short() == want { return None; } }
+        if let Canon::Set(_, e, _) = g { if e.len() == 1 && (e[0].short() == want || (matches!(b, Canon::Set(..)) && flat(&e[0]) == flat(b))) { return None; } }
         return Some(format!("over globals {}, as the one element of the comprehension {}", b.short(), g.short()));
       }
       // a comprehension keeps the elements of a matrix-valued body, in an order of its own: compared as a multiset
@@ -84,7 +84,8 @@ pub fn differs(base: &Outcome, ctx: &'static str, got: &Outcome) -> Option<Strin
 }
 
 /// one expression template: `local` is written over local names, `top` is the same expression over the globals that hold the operands
-pub struct Tpl { pub local: String, pub top: String, pub vars: Vec<LVar>, pub scalar_operands: bool, pub set_ok: bool, pub tag: String }
+pub struct Tpl { pub local: String, pub top: String, pub vars: Vec<LVar>, pub scalar_operands: bool, pub set_ok: bool, pub tag: String, /// false when the expression reads globals (a function body only sees its parameters) or takes operands of a kind a parameter cannot declare
+  pub fn_ok: bool }
 
 fn kind_text(c: &Canon) -> String {
   match c { Canon::Matrix(k, ..) => format!("[{}]", k), Canon::Set(k, ..) => format!("{{{}}}", k), other => other.kind_name() }
@@ -99,7 +100,11 @@ pub fn judge_templates(id: &str, s: &mut Session, tpls: &[Tpl], uniq0: usize, pr
     let Outcome::Value(bc) = &base else { out.count("context_base_rejected"); continue; };
     let rk = kind_text(bc);
     let res = eval_in_contexts(s, uniq, &t.vars, &t.local, &rk, &t.top, t.scalar_operands, t.set_ok);
+    let plain = matches!(bc, Canon::Num(..) | Canon::Bool(..) | Canon::Str(..) | Canon::Matrix(..));
     for (ctx, text, o) in res {
+      if ctx == CONTEXTS[0] && !t.fn_ok { continue; }
+      // a matrix comprehension can only collect numbers, Booleans, strings and matrices of them
+      if ctx == CONTEXTS[2] && !plain { continue; }
       out.evaluations += 1;
       let case = format!("{} ;; {}   versus r := {}", preamble, text, t.top);
       match differs(&base, ctx, &o) {
